@@ -275,3 +275,16 @@ Example line_format_column_hyp :
              LogqlTemplate.tpl_exec ns [("level", "warn")] = Some "lvl=warn {msg}!" /\
              LogqlTemplate.tpl_sql_value ns [("level", "warn")] = Some "lvl=warn {msg}!".
 Proof. exact LogqlTemplateProofs.line_format_sql_value_hyp. Qed.
+
+(* a stage behind line_format reads the REWRITTEN line (repair 42297ce of /repo: the select is closed behind a line_format; before it the
+   line filter of {b="1"} | line_format "zzz" |= "zzz" tested samples.string inside the select that joins the labels, which has
+   no such column - the statement was refused): the planned statement, executed by SqlEval over C07's example database (stored
+   line "hello"), returns the row with the line zzz; with |= "ell" it returns nothing *)
+From Qryn Require proofs.LogqlLineFormatExamples.
+Example line_filter_behind_line_format_reads_the_formatted_line :
+  LogqlLineFormatExamples.lff_rows LogqlLineFormatExamples.lff_query
+  = Some [Some {| o_fp := 7; o_labels := [("b", "1")]; o_line := "zzz"; o_ts := 1700000000000000005 |}] /\
+  LogqlLineFormatExamples.lff_rows {| sel_matchers := sel_matchers LogqlLineFormatExamples.lff_query;
+                                      sel_pipeline := [PLineFormat "zzz"; PLineFilter LFContains "ell" None] |} = Some [].
+Proof. split; [exact LogqlLineFormatExamples.line_filter_behind_line_format_reads_the_formatted_line
+              | exact LogqlLineFormatExamples.line_filter_behind_line_format_ignores_the_stored_line]. Qed.
